@@ -406,7 +406,12 @@ impl EPA {
                     if new_face.1 {
                         let pt = self.vertices[self.faces[new_face_id].pts[0]].point.coords;
                         let dist = self.faces[new_face_id].normal.dot(&pt);
-                        if dist < curr_dist {
+                        // A new face may be exactly as close to the origin as the face being expanded
+                        // (its plane contains the origin when the initial polytope is flat, i.e. when GJK
+                        // ended with the origin on a segment or a triangle): rounding then makes `dist`
+                        // smaller than `curr_dist` by a few ulps. Only a difference beyond the tolerance
+                        // indicates a numerical problem.
+                        if dist < curr_dist - _eps_tol {
                             // TODO: if we reach this point, there were issues due to
                             // numerical errors.
                             let points = face.closest_points(&self.vertices);
